@@ -52,6 +52,7 @@ func checkC12(c *Ctx, r *Report) {
 	if a := c.anchors(); len(a.missing) == 0 {
 		cacheVerdictRule(c, r, a, "C12.CACHE", "a request's response then depends on which Go type another request made the cache see first: it is no longer the response the request gets when run alone")
 	}
+	appDataRule(c, r, "C12.APPDATA", "two requests that were handed the same variable map (or resolve the same data) race on it, and one request's coerced values or filled-in defaults show up in the other")
 	eng := newEffEngine(c)
 	eng.run(entries...)
 	r.Tables["guard_table"] = map[string]string{
